@@ -459,7 +459,7 @@ func constToken(c value.Value, visit func(*vm.BytecodeFunction) int) string {
 				pops += 2
 			}
 		}
-		return "S" + strconv.Itoa(pops)
+		return fmt.Sprintf("S%d.%d", pops, len(r.Cases))
 	case *vm.NativeCallSiteInfo:
 		p := -1
 		if r.Method != nil {
